@@ -8,7 +8,7 @@ def hx(bs):
 def b(s):
     return [ord(c) for c in s]
 
-LOOKUPS = ['N', 'P', 'S:80:1', 'S:65535:1', 'S:0:1', 'S:8080:0']
+LOOKUPS = ['N', 'P', 'S:80:1', 'S:65535:1', 'S:0:1', 'S:8080:0', 'U:69:1', 'U:32768:1', 'U:40000:0', 'S:10000:1', 'S:32767:1']
 
 class C14(vlib.PropertyCheck):
     id = 'C14'
